@@ -1,6 +1,8 @@
 package main
 
 import (
+	"strings"
+	"strconv"
 	"flag"
 	"fmt"
 	"os"
@@ -25,6 +27,8 @@ func main() {
 	keep := fs.String("keep", "/verif/replays", "dir for failing traces")
 	par := fs.Int("par", 8, "parallel histories")
 	out := fs.String("out", "-", "result json")
+	seedsFlag := fs.String("seeds", "", "campaign: exact history seeds (comma separated) instead of seed*1000+i")
+	blocksOverride := fs.Int("histblocks", 0, "campaign: number of blocks per history (overrides the profile)")
 	readers := fs.Int("readers", 0, "concurrent read-only query goroutines (C25)")
 	raceBin := fs.String("racebin", "", "race-detector build of this harness (C25)")
 	fs.Parse(os.Args[2:])
@@ -80,6 +84,8 @@ func main() {
 		writeJSON(*out, Determinism(*profile, *seed, *n, *tier, *keep, self))
 	case "export":
 		writeJSON(*out, ExportRoundTrip(*profile, *seed, *n, *tier, *keep))
+	case "export2":
+		writeJSON(*out, ExportMode2(*profile, *seed, *n, *tier, *driver, *keep))
 	case "kernels":
 		writeJSON(*out, Kernels(*seed, *n, *driver, *keep))
 	case "rlp":
@@ -108,6 +114,14 @@ func main() {
 	case "valid":
 		writeJSON(*out, ValidMode(*seed, *n, *tier, *driver, *keep))
 	case "campaign":
+		for _, f := range strings.Split(*seedsFlag, ",") {
+			if v, err := strconv.ParseInt(strings.TrimSpace(f), 10, 64); err == nil {
+				ExactSeeds = append(ExactSeeds, v)
+			}
+		}
+		if *blocksOverride > 0 {
+			BlocksOverride = *blocksOverride
+		}
 		res := Campaign(*profile, *seed, *n, *tier, *driver, *keep, *par)
 		writeJSON(*out, res)
 	default:
